@@ -76,6 +76,17 @@ class ClassTable:
                 if target is not None:
                     ci.bases.append(target)
         self._mro: dict[str, list[ClassInfo]] = {}
+        # helpers no rule refers to by name are inlined into their callers (see canon.py); afterwards guard
+        # clauses exposed by inlining are brought to the same conditional normal form as everything else
+        from .canon import inline_helpers, positional_calls
+        from .loader import canonical_tree
+
+        positional_calls(self)
+        self.inlined = inline_helpers(self)
+        if self.inlined:
+            for ci in self.by_qual.values():
+                for fn in ci.methods.values():
+                    canonical_tree(fn)
 
     # ------------------------------------------------------------------ names
     def resolve_name(self, module: Module, expr: str) -> str:
